@@ -29,3 +29,12 @@ Lemma literal_repr_example :
   lr_model (fun _ => true) literal_repr_bases literal_repr_hit literal_repr_fallback (mk_obj (LBool true) true [])
   = Some (codes "True").
 Proof. repeat split; vm_compute; reflexivity. Qed.
+
+(* the link to the splice table: for a str payload - exact or an instance of a subclass with ANY __repr__ -
+   the text literal_repr returns is the text py_repr of the payload, i.e. the site text of a KRepr row *)
+Theorem literal_repr_str : forall p d ex r,
+  lr_model p literal_repr_bases literal_repr_hit literal_repr_fallback (mk_obj (LStr d) ex r) = Some (py_repr p d).
+Proof. intros p d ex r. exact (literal_repr_inert p (mk_obj (LStr d) ex r) eq_refl). Qed.
+Theorem literal_repr_bytes : forall p d ex r,
+  lr_model p literal_repr_bases literal_repr_hit literal_repr_fallback (mk_obj (LBytes d) ex r) = Some (py_repr_bytes d).
+Proof. intros p d ex r. exact (literal_repr_inert p (mk_obj (LBytes d) ex r) eq_refl). Qed.
